@@ -32,7 +32,10 @@ NAMES = [b'com.example.N1', b'com.example.N2', b'com.example.N3']
 RULES = [b"type='signal',member='R1'", b"type='signal',member='R2'", b"type='signal',member='R3'"]
 LIM = {'max_incomplete_connections': 2, 'max_completed_connections': 3, 'max_connections_per_user': 2,
        'max_names_per_connection': 3, 'max_match_rules_per_connection': 2, 'max_message_size': 4096, 'auth_timeout': 30000,
-       'max_replies_per_connection': 2}
+       'max_replies_per_connection': 2,
+       # finite, but far beyond anything the explored histories add up to: the bus runs its expiry machinery for pending
+       # replies (as every real configuration does) without a call ever timing out here
+       'reply_timeout': 100000000}
 LIMITS_EXCEEDED = b'org.freedesktop.DBus.Error.LimitsExceeded'
 
 
